@@ -610,12 +610,12 @@ class TreeGen(Gen):
         body = []
         for _ in range(rng.randint(1, 2)):
             r = rng.random()
-            if r < 0.25:
+            if r < (0.45 if lf["s"] else 0.25):
                 # element vs index arithmetic (the index is a signed int: 'i - k' goes negative)
                 body.append(EXPR(BIN(rng.choice(REL), {"t": "f", "p": elem["_p"]},
                                      BIN(rng.choice(["+", "-"]) if lf["s"] else "+", {"t": "idx"},
                                          LIT(rng.randint(0, 3))))))
-            elif r < 0.45 and lf.get("sz", 0) >= 2:
+            elif r < (0.6 if lf["s"] else 0.45) and lf.get("sz", 0) >= 2:
                 # neighbour relation guarded by the index
                 nb = {"t": "f", "p": [lf["n"], _loopvar(0, False, -1)]}
                 body.append({"t": "if", "c": BIN(">", {"t": "idx"}, LIT(0)),
@@ -765,7 +765,7 @@ class ListGen(TreeGen):
         for i in range(n_l):
             r = rng.random()
             w = rng.choice([2, 3, 4])
-            s = bool(self.cfg["signed"] and rng.random() < 0.25)
+            s = bool(self.cfg["signed"] and rng.random() < 0.4)
             if allow_randsz and r < 0.3:
                 lf = {"n": "l%d" % i, "k": "l", "w": w, "s": s, "r": True, "rsz": True, "sz": 0}
             elif r < 0.8:
